@@ -133,6 +133,11 @@ def run(chk, binary):
                 continue
             if verb in ("Delete", "Change"):
                 kind, t = reg_text(regs_after, name)
+                if before == after and reg_text(regs_before, name) == (kind, t):
+                    # the motion failed (no such object, target not found): the operator did not run, text and
+                    # register are as before (fix "an operator whose motion failed leaves the register alone")
+                    dist["failed_motion_noop"] = dist.get("failed_motion_noop", 0) + 1
+                    continue
                 if kind == "block":
                     continue
                 piece = t
